@@ -23,9 +23,10 @@ A schedule is a list of labels; `trun` / `prun` execute it (`none` = some label 
 namespace Cppcheck.Exec
 open Cppcheck.Wire Cppcheck.Serialize
 
-/-- SWITCH used by the driver for predictions about the real binary: set to `true` once
-    /verif/proposed/C15-suppressed-dedup-jobs.diff is applied to /repo (the theorems cover both values). -/
-def dedupFixApplied : Bool := false
+/-- SWITCH used by the driver for predictions about the real binary.  `true` since /repo 9907ad7
+    (proposed/C15-suppressed-dedup-jobs.diff applied); `false` is the behaviour between 9e24c55 and 9907ad7, kept only
+    for the counterexample theorem `thread_dedup_counterexample` (the theorems cover both values). -/
+def dedupFixApplied : Bool := true
 
 /-- `SuppressionList::ErrorMessage::fromErrorMessage(msg, {})`: everything a suppression can look at -/
 structure SView where
@@ -55,9 +56,9 @@ structure Cfg where
   critical : Str → Bool
   emitDuplicates : Bool := false
   safety : Bool := false
-  /-- `false` = lib/cppcheck.cpp as it is (suppressed findings have a duplicate filter of their own, chosen by the
-      logger's own notion of "suppressed"); `true` = after /verif/proposed/C15-suppressed-dedup-jobs.diff -/
-  dedupFix : Bool := false
+  /-- `true` = lib/cppcheck.cpp as it is since 9907ad7 (`suppressedLater`: a finding that `hasToLog` will drop uses the
+      duplicate filter of the suppressed findings); `false` = the code between 9e24c55 and 9907ad7 (finding F11d) -/
+  dedupFix : Bool := true
   /-- `settings.exitCode` (--error-exitcode) -/
   exitCode : Nat := 1
   /-- `Path::simplifyPath` -/
@@ -90,7 +91,7 @@ structure Seen where
   deriving DecidableEq, Repr, Inhabited
 
 /-- `CppCheckLogger::reportErr`: (messages forwarded to the next logger, new per-check key sets, exit code set).
-    `cfg.dedupFix` selects the code after /verif/proposed/C15-suppressed-dedup-jobs.diff (`suppressedLater`). -/
+    `cfg.dedupFix = false` selects the code before 9907ad7 (without `suppressedLater`). -/
 def logOne (cfg : Cfg) (useGlobal : Bool) (seen : Seen) (r : Raw) : List Msg × Seen × Bool :=
   if r.msg.severity = .internal then ([r.msg], seen, false)
   else if !r.reportable then ([], seen, false)
@@ -144,8 +145,8 @@ def safetyOK (cfg : Cfg) (rs : List Raw) : Bool :=
   !cfg.safety || rs.all fun r =>
     !cfg.critical r.msg.id || (!cfg.supG (sview cfg.simp r.msg) && !cfg.supGX (sview cfg.simp r.msg))
 
-/-- after the proposed fix, or no finding that only a non-local suppression matches renders to the text of a
-    reported finding of the same file (excluded: finding F11d) -/
+/-- the current code (`dedupFix`), or — for the code before 9907ad7 — no finding that only a non-local suppression matches
+    renders to the text of a reported finding of the same file (excluded there: F11d, fixed) -/
 def dedupOK (cfg : Cfg) (rs : List Raw) : Bool :=
   cfg.dedupFix || rs.all fun r => rs.all fun r' =>
     !(r.globalOnly cfg && r'.plain cfg && cfg.key r.msg == cfg.key r'.msg)
